@@ -38,6 +38,9 @@ struct Case {
     fb: Evalf,
     rho_a: MaxRho,
     rho_b: MaxRho,
+    /// for the AC-canonicaliser (Canon.v): number of shared state variables, the selections of them that are the variables
+    /// of A and of B, and which shared variables are literally zero
+    canon: Option<(usize, Vec<usize>, Vec<usize>, Vec<bool>)>,
 }
 
 fn tracer<R: Residual + 'static>(m: Arc<R>) -> Tracer {
@@ -77,6 +80,7 @@ fn case<A: Residual + 'static, B: Residual + 'static>(
         fb: evalf(b.clone()),
         rho_a: maxrho(a),
         rho_b: maxrho(b),
+        canon: None,
     }
 }
 
@@ -169,7 +173,11 @@ fn cases(full: bool) -> Vec<Case> {
         for (j, &i) in perm.iter().enumerate() {
             dirs.push((2 + i, 2 + j));
         }
-        case(name, "permute", false, n, t_scale, PcSaft::new(Arc::new(p)), PcSaft::new(Arc::new(q)), map, dirs)
+        let mut c = case(name, "permute", false, n, t_scale, PcSaft::new(Arc::new(p)), PcSaft::new(Arc::new(q)), map, dirs);
+        let mut sel_b = vec![0, 1];
+        sel_b.extend(perm.iter().map(|&i| 2 + i));
+        c.canon = Some((n + 2, (0..n + 2).collect(), sel_b, vec![false; n + 2]));
+        c
     };
     v.push(perm_case("permute_pcsaft_alkanes_kij", pcsaft_from(&["propane", "hexane", "decane"], "gross2001.json", 0.01), vec![2, 0, 1], 500.0));
     v.push(perm_case("permute_pcsaft_water_methanol", configs::pcsaft_params(&["water", "methanol"], "gross2002.json", None), vec![1, 0], 600.0));
@@ -185,13 +193,60 @@ fn cases(full: bool) -> Vec<Case> {
             m.push(0.0);
             RState { t: s.t, v: s.v, n: m }
         });
-        case(name, "pad", false, n, t_scale, PcSaft::new(Arc::new(small)), PcSaft::new(Arc::new(big)), map, all_dirs(n))
+        let mut c = case(name, "pad", false, n, t_scale, PcSaft::new(Arc::new(small)), PcSaft::new(Arc::new(big)), map, all_dirs(n));
+        let mut zs = vec![false; n + 3];
+        zs[n + 2] = true;
+        c.canon = Some((n + 3, (0..n + 2).collect(), (0..n + 3).collect(), zs));
+        c
     };
     v.push(pad_case("pad_pcsaft_alkanes", pcsaft_from(&["propane", "butane"], "gross2001.json", 0.0), pcsaft_from(&["propane", "butane", "decane"], "gross2001.json", 0.0), 400.0));
     v.push(pad_case("pad_pcsaft_water_plus_methanol", configs::pcsaft_params(&["water"], "gross2002.json", None), configs::pcsaft_params(&["water", "methanol"], "gross2002.json", None), 600.0));
     v.push(pad_case("pad_pcsaft_propane_plus_acetone",
         configs::pcsaft_params(&["propane"], "gross2001.json", None),
         configs::pcsaft_multi(&[(&["propane"], "gross2001.json"), (&["acetone"], "gross2006.json")], None), 400.0));
+    // ---------- generic: every mixture configuration of the shared list, through `subset` (itself decided above):
+    //   permutation  M  vs  M.subset(rotation),   padding  M.subset(all but one)  vs  M with that mole number zero
+    for cfg in configs::all(full).into_iter().filter(|c| c.ncomp >= 2 && (full || c.core)) {
+        let n = cfg.ncomp;
+        let id: Vec<usize> = (0..n).collect();
+        let perm: Vec<usize> = (0..n).map(|j| (j + 1) % n).collect();
+        {
+            let pm = perm.clone();
+            let map = Box::new(move |s: &RState, _: &mut Rng| RState { t: s.t, v: s.v, n: pm.iter().map(|&i| s.n[i]).collect() });
+            // quick tier: value only (the canonicaliser decides most of these pairs for all states anyway)
+            let mut dirs = if full { vec![(0, 0), (1, 1)] } else { vec![] };
+            for (j, &i) in perm.iter().enumerate().filter(|_| full) {
+                dirs.push((2 + i, 2 + j));
+            }
+            let mut c = case(&format!("gperm_{}", cfg.name), "permute", false, n, cfg.t_scale, cfg.model.subset(&id), cfg.model.subset(&perm), map, dirs);
+            let mut sel_b = vec![0, 1];
+            sel_b.extend(perm.iter().map(|&i| 2 + i));
+            c.canon = Some((n + 2, (0..n + 2).collect(), sel_b, vec![false; n + 2]));
+            v.push(c);
+        }
+        for drop in [n - 1, 0] {
+            let keep: Vec<usize> = (0..n).filter(|&i| i != drop).collect();
+            let kp = keep.clone();
+            let map = Box::new(move |s: &RState, _: &mut Rng| {
+                let mut m = vec![0.0; kp.len() + 1];
+                for (j, &i) in kp.iter().enumerate() {
+                    m[i] = s.n[j];
+                }
+                RState { t: s.t, v: s.v, n: m }
+            });
+            let mut dirs = if full { vec![(0, 0), (1, 1)] } else { vec![] };
+            for (j, &i) in keep.iter().enumerate().filter(|_| full) {
+                dirs.push((2 + j, 2 + i));
+            }
+            let mut c = case(&format!("gpad{}_{}", drop, cfg.name), "pad", false, n - 1, cfg.t_scale, cfg.model.subset(&keep), cfg.model.subset(&id), map, dirs);
+            let mut zs = vec![false; n + 2];
+            zs[2 + drop] = true;
+            let mut sel_a = vec![0, 1];
+            sel_a.extend(keep.iter().map(|&i| 2 + i));
+            c.canon = Some((n + 2, sel_a, (0..n + 2).collect(), zs));
+            v.push(c);
+        }
+    }
     // ---------- splitting one component into two identical ones
     let split_case = |name: &str, p: PcSaftParameters, i: usize, t_scale: f64| -> Case {
         let n = p.m.len();
@@ -221,6 +276,19 @@ fn cases(full: bool) -> Vec<Case> {
     }
     v
 }
+
+/// the AC-canonicaliser on the pairs of equally named outputs; [pair_agree] is the instance of the theorem for every pair
+/// whose flag is true (the flags are computed, then the computation is re-checked by the kernel in [pair_canon_eq])
+const CANON_BODY: &str = r#"
+Definition pair_canon : list bool := Eval vm_compute in canon_eqbs A_prog B_prog C_zs C_piA C_piB C_outs.
+Lemma pair_canon_eq : canon_eqbs A_prog B_prog C_zs C_piA C_piB C_outs = pair_canon.
+Proof. vm_compute. reflexivity. Qed.
+Definition pair_agree (k : nat) (Hk : (k < List.length C_outs)%nat) (H : nth k pair_canon false = true) (env : list R) :=
+  C09_canonical_programs_agree A_prog B_prog C_zs C_piA C_piB _ _ env
+    (canon_eqbs_nth A_prog B_prog C_zs C_piA C_piB C_outs k Hk (eq_ind_r (fun l => nth k l false = true) H pair_canon_eq)).
+Check pair_agree.
+Eval vm_compute in ("CANON", "P", pair_canon).
+"#;
 
 const BODY: &str = r#"
 Open Scope list_scope.
@@ -266,9 +334,13 @@ pub fn run(out_dir: &str, tier: &str, seed: u64, only: Option<String>) -> Value 
         let mut rows_a = Vec::new();
         let mut rows_b = Vec::new();
         let mut used = Vec::new();
+        let (mut leaks_a, mut leaks_b) = (0i64, 0i64); // constants that differ between states; -1: the shape changes
         for (s, sb) in &states {
             let (pa, pb) = ((c.a)(s), (c.b)(sb));
-            if compare(&pa0, &pa).same_shape && compare(&pb0, &pb).same_shape {
+            let (ca, cb) = (compare(&pa0, &pa), compare(&pb0, &pb));
+            leaks_a = if !ca.same_shape || leaks_a < 0 { -1 } else { leaks_a.max(ca.leaks.len() as i64) };
+            leaks_b = if !cb.same_shape || leaks_b < 0 { -1 } else { leaks_b.max(cb.leaks.len() as i64) };
+            if ca.same_shape && cb.same_shape {
                 let mut xa = s.vars();
                 xa.extend(&pa.consts);
                 let mut xb = sb.vars();
@@ -295,6 +367,41 @@ pub fn run(out_dir: &str, tier: &str, seed: u64, only: Option<String>) -> Value 
                 .replace("DIRSA", &format!("[{}]", da.join("; ")))
                 .replace("DIRSB", &format!("[{}]", db.join("; "))),
         );
+        let mut canon_names: Vec<String> = Vec::new();
+        if let Some((nv, sa, sb, zv)) = &c.canon {
+            // shared environment: the shared state variables, then the distinct constant values of both programs
+            let mut vals: Vec<f64> = Vec::new();
+            let mut slot = |x: f64| -> usize {
+                match vals.iter().position(|y| *y == x) {
+                    Some(i) => nv + i,
+                    None => {
+                        vals.push(x);
+                        nv + vals.len() - 1
+                    }
+                }
+            };
+            let mut pia = sa.clone();
+            pia.extend(pa0.consts.iter().map(|&x| slot(x)));
+            let mut pib = sb.clone();
+            pib.extend(pb0.consts.iter().map(|&x| slot(x)));
+            let mut zs: Vec<bool> = zv.clone();
+            zs.extend(vals.iter().map(|x| *x == 0.0));
+            let nl = |l: &[usize]| l.iter().map(|i| format!("{i}%nat")).collect::<Vec<_>>().join("; ");
+            v.push_str("From FeosVerif Require Import Canon.\n");
+            v.push_str(&format!("Definition C_zs : list bool := [{}].\n", zs.iter().map(|b| b.to_string()).collect::<Vec<_>>().join("; ")));
+            v.push_str(&format!("Definition C_piA : list nat := [{}].\nDefinition C_piB : list nat := [{}].\n", nl(&pia), nl(&pib)));
+            // pairs of outputs with the same name (contributions; the last one is the total): positions in the value lists
+            let (na, nb) = (pa0.outs.len(), pb0.outs.len());
+            let mut pairs = Vec::new();
+            for (ja, name) in pa0.outs.iter().enumerate() {
+                if let Some(jb) = pb0.outs.iter().position(|x| x == name) {
+                    pairs.push(format!("({}, {})%nat", na - 1 - ja, nb - 1 - jb));
+                    canon_names.push(name.clone());
+                }
+            }
+            v.push_str(&format!("Definition C_outs : list (nat * nat) := [{}].\n", pairs.join("; ")));
+            v.push_str(CANON_BODY);
+        }
         if c.expect_identical {
             v.push_str("Lemma pair_identical : prog_eqb A_prog B_prog = true.\nProof. vm_compute. reflexivity. Qed.\nDefinition pair_agree := C09_identical_programs_agree A_prog B_prog pair_identical.\nCheck pair_agree.\n");
         }
@@ -324,7 +431,8 @@ pub fn run(out_dir: &str, tier: &str, seed: u64, only: Option<String>) -> Value 
             }
         }
         results.push(json!({
-            "name": c.name, "kind": c.kind, "expect_identical": c.expect_identical,
+            "name": c.name, "kind": c.kind, "expect_identical": c.expect_identical, "canon_outputs": canon_names,
+            "leaks": [leaks_a, leaks_b],
             "ndirs": c.dirs.len(), "dirs": c.dirs,
             "ninstr_a": pa0.instrs.len(), "ninstr_b": pb0.instrs.len(),
             "consts_identical": pa0.consts.len() == pb0.consts.len() && pa0.consts.iter().zip(&pb0.consts).all(|(x, y)| x.to_bits() == y.to_bits()),
